@@ -128,6 +128,18 @@ REG = {}
 TICKLOG = []   # (scheduler object, time, sorted roots, real ns at start)
 
 
+class DeviceFault(Exception):
+    """an application exception with a constructor of its own: it cannot be rebuilt from its args"""
+    def __init__(self, device, code, text):
+        super().__init__(f"{text} [fault {code}]")
+        self.device, self.code = device, code
+
+
+def failure(c, n, text):
+    """what a failing probe device / adapter hook raises: a built-in exception or an application-defined one"""
+    return DeviceFault(c, n, text) if (c + n) % 2 else RuntimeError(text)
+
+
 def make_classes():
     from tickit.core.components.device_component import DeviceComponent
     from tickit.core.components.system_component import SystemComponent
@@ -144,7 +156,7 @@ def make_classes():
             TRACE.append((self.c, int(time), ins))
             TRACE_RT.append(asyncio.get_event_loop().time_ns())
             if self.fail_at is not None and self.n == self.fail_at:
-                raise RuntimeError(f"device c{self.c} fails at update {self.n}")
+                raise failure(self.c, self.n, f"device c{self.c} fails at update {self.n}")
             outs, ca = table_dev(self.params, self.c, self.n, int(time), ins)
             return DeviceUpdate({pname(p): v for p, v in outs.items()}, None if ca is None else SimTime(ca))
 
@@ -239,10 +251,11 @@ def run_internal(cfg, devs, speed=(1, 1), initial=0, stim=(), t_end=3_000_000_00
         sched = MasterScheduler(InverseWiring.from_component_configs(configs), *get_interface("internal"),
                                 initial_time=initial, simulation_speed=speed[0] / speed[1])
         comps = [c() for c in configs]
-        tasks = []
+        tasks, names = [], []
         if not delays:
             tasks = [asyncio.create_task(c.run_forever(*get_interface("internal"))) for c in comps]
             tasks.append(asyncio.create_task(sched.run_forever()))
+            names += [cid(c.name) for c in comps] + ["sched"]
         else:
             # start-up order: each participant is started at its own event-loop step
             base0 = loop.steps
@@ -255,14 +268,17 @@ def run_internal(cfg, devs, speed=(1, 1), initial=0, stim=(), t_end=3_000_000_00
                         todo.remove(item)
                         if item[1] == "comp":
                             tasks.append(lp.create_task(item[2].run_forever(*get_interface("internal"))))
+                            names.append(cid(item[2].name))
                         else:
                             tasks.append(lp.create_task(item[2].run_forever()))
+                            names.append("sched")
                 for e in list(early_todo):
                     comp = REG.get(e[1])
                     if lp.steps - base0 >= e[0] and comp is not None and hasattr(comp, "state_producer"):
                         early_todo.remove(e)
                         info["early_before_scheduler"] = not hasattr(sched, "state_consumer")
                         tasks.append(lp.create_task(comp.raise_interrupt()))
+                        names.append("early")
 
             loop.step_hook = start_hook
             for _ in range(max(delays.values(), default=0) + 8):
@@ -304,6 +320,7 @@ def run_internal(cfg, devs, speed=(1, 1), initial=0, stim=(), t_end=3_000_000_00
         if bus is not None:
             info["bus"] = dict(delivered=bus.delivered, choices=bus.choices, max_pending=bus.max_pending, errors=list(bus.errors))
         info["tasks_done"] = [t.done() for t in tasks]
+        info["done_by"] = {str(n): t.done() for n, t in zip(names, tasks)}
         for t in tasks:
             t.cancel()
 
@@ -333,7 +350,7 @@ def run_internal(cfg, devs, speed=(1, 1), initial=0, stim=(), t_end=3_000_000_00
     return dict(per=per, trace=[(c, t, dict(i)) for (c, t, i) in TRACE], trace_rt=list(TRACE_RT), ticklog=ticklog,
                 mticks=mticks, inj=info.get("inj"), steps=info.get("steps"),
                 early_before_scheduler=info.get("early_before_scheduler"),
-                error=err, errors=info.get("errors", []), tasks_done=info.get("tasks_done"), bus=info.get("bus"),
+                error=err, errors=info.get("errors", []), tasks_done=info.get("tasks_done"), done_by=info.get("done_by"), bus=info.get("bus"),
                 unfinished=info.get("unfinished", []))
 
 
